@@ -38,7 +38,7 @@ func stepCallName(s Step) string {
 
 func runC18(c *Ctx) {
 	p, r := c.P, c.R
-	r.Explanation = "Decides on every path of cloudevents.(*FormatterFilter).Process and sign: errors of every fallible step (validate, id generation, encoding, signing, predicate) end Process with a nil event; the cloudevents.Event type has exactly the ten JSON members of the property and the literal is filled from id / Source.String() / the 1.0 constant / string(e.Type) / Data() or payload / schema / e.CreatedAt, with an empty ID() rejected; the accepted formats of Format.validate and the arms of Process agree (content type, indentation, format key); signing happens iff a signer is configured and the type is listed, serialized is the base64 of exactly the bytes handed to the signer taken before the buffer is reset, serialized_hmac is the signer's result, and the document is re-encoded afterwards; the predicate decides between (e,nil), (nil,nil) and (nil,err). Uniqueness of random ids and JSON validity are not decided (third-party semantics)."
+	r.Explanation = "Decides on every path of cloudevents.(*FormatterFilter).Process and sign: errors of every fallible step (validate, id generation, encoding, signing, predicate) end Process with a nil event; the cloudevents.Event type has exactly the ten JSON members of the property and the literal is filled from id / Source.String() / the 1.0 constant / string(e.Type) / Data() or payload / schema / e.CreatedAt, with an empty ID() rejected; the accepted formats of Format.validate and the arms of Process agree (content type, indentation, format key); signing happens iff a signer is configured and the type is listed, serialized is the base64 of exactly the bytes handed to the signer taken before the buffer is reset, serialized_hmac is the signer's result, and the document is re-encoded afterwards; the predicate decides between (e,nil), (nil,nil) and (nil,err). Uniqueness of random ids and JSON validity are not decided (third-party semantics). C18.validate: decision table of FormatterFilter.validate (accept only established-valid configurations, reject only established-invalid ones)."
 	r.NotDecided = []string{"uniqueness of random ids", "validity of the JSON produced by encoding/json", "that serialized decodes to the unsigned document byte for byte (follows from C18.sig under A4)"}
 	c.errControls()
 	proc := c.Fn("C18.anchor", PkgCloud, "FormatterFilter", "Process")
@@ -400,6 +400,16 @@ func runC18(c *Ctx) {
 			if len(stores) > 0 || hasReset {
 				r.Bad("C18.sig", "sign:unsigned-path", p.InstrPos(pa.End), "a path that does not call the signer still touches the cloudevent or resets the buffer")
 			}
+			// the converse: success without signing only after THIS call saw no signer, or a type that is not listed
+			if isNilConst(rv[0]) {
+				nilSigner, f1 := hasAtom(pa, func(at Atom) bool { return at.Op == "eq" && at.L.Is("Field", "Signer") && at.L.Args[0].IsParam("0:f") && at.R.Is("Const", "nil") })
+				listed, f2 := hasAtom(pa, func(at Atom) bool {
+					return at.Op == "true" && at.L.Op == "Call" && strings.HasSuffix(at.L.Name, "strutil.StrListContains") &&
+						at.L.Args[0].String() == "Field[SignEventTypes](Param(0:f))" && at.L.Args[1].String() == "Field[Type](Param(2:e))"
+				})
+				okSkip := (f1 && nilSigner) || (f2 && !listed)
+				r.Check(okSkip, "C18.sig", "sign:unsigned-condition", p.InstrPos(pa.End), "sign returns success without signing only after finding no signer or a type that is not listed", "sign reports success without signing on a path that established neither Signer == nil (as read in this call) nor that the type is not listed: "+p.PathSummary(pa))
+			}
 			continue
 		}
 		stb := pa.TermsAt(*signer)
@@ -475,4 +485,5 @@ func runC18(c *Ctx) {
 		}
 	}
 	r.Check(nSigned >= 1, "C18.sig", "sign:signed-paths", p.Pos(sign.Pos()), fmt.Sprintf("%d successful signing path(s)", nSigned), "no successful signing path exists")
+	c.ruleValidate()
 }
